@@ -1,4 +1,6 @@
 import TddaVerif.Drv.Util
+import TddaVerif.Model.TddaMeta
+import TddaVerif.Generated.Meta
 import TddaVerif.Model.TddaFile
 open Lean TddaVerif.Drv TddaVerif.Py TddaVerif.TddaFile
 
@@ -59,6 +61,16 @@ def parseCon (j : Json) : R Con := do
 
 def handle (op : String) (j : Json) : Option (R Json) :=
   match op with
+  | "c09.meta" => some do
+      -- md: [[key, null | text of the JSON value], ...] -> what get_metadata gives after loading it
+      let md ← asList (fun e => do
+          let a ← asArr e
+          let v : TddaVerif.TddaMeta.MV ← (if a[1]!.isNull then pure .null else do pure (.val (← asChars a[1]!)))
+          pure ((← asChars a[0]!), v)) (← fld j "md")
+      let keys := TddaVerif.Generated.Meta.metadataKeys
+      let out := TddaVerif.TddaMeta.getMeta keys (TddaVerif.TddaMeta.loadMeta keys md)
+      pure (ofList (fun (p : List Char × TddaVerif.TddaMeta.MV) =>
+        Json.arr #[ofChars p.1, match p.2 with | .null => Json.null | .val t => ofChars t]) out)
   | "c09.strip_lines" => some do
       pure (ofChars (stripLines (← asChars (← fld j "s"))))
   | "c09.preferred_order" => some do
